@@ -51,6 +51,7 @@ class SizeEval:
             env = {}
             for p, a in zip(f.params, args):
                 env[p["id"]] = a
+            env["@va"] = list(args[len(f.params):])      # the unnamed arguments of a variadic size function
             r = self._run(f, f.body, env)
         finally:
             self.depth -= 1
@@ -207,6 +208,12 @@ class SizeEval:
                     raise Undecided("negative size (unsigned wrap) in %s" % f.name)
                 return r
             raise Undecided("operator %s" % op)
+        if k == "VAArg":
+            if not env.get("@va"):
+                raise Undecided("va_arg beyond the arguments supplied in %s" % f.name)
+            return env["@va"].pop(0)
+        if k == "Call" and e.get("callee") in ("__builtin_va_start", "__builtin_va_end", "__builtin_va_copy"):
+            return 0
         if k == "Call":
             cn = e.get("callee")
             args = [self.expr(f, a, env) for a in e["a"]]
@@ -245,6 +252,62 @@ CREATORS = {
 }
 
 
+def _copy_atoms(w, src, dst):
+    for kk, v in list(w.atoms.items()):
+        if kk.startswith(src + "->"):
+            w.atoms[dst + kk[len(src):]] = v
+
+
+def _mk_curve(deep_fn, keep_fn):
+    def make(w, c):
+        # ecXCreate(ec, f, A, B, stack): the curve object refers to the field object f
+        ec, f = w.path_of(c["a"][0]), w.path_of(c["a"][1])
+        if ec is None or f is None:
+            return
+        n = w.atoms.get(f + "->n")
+        fd = w.atoms.get(f + "->deep")
+        if n is None or fd is None:
+            return
+        _copy_atoms(w, f, ec + "->f")
+        w.atoms[ec + "->d"] = 3
+        w.atoms[ec + "->deep"] = w.ne.sizes.call(deep_fn, [n, fd], w.f.unit)
+        w.atoms[ec + "->keep"] = w.ne.sizes.call(keep_fn, [n], w.f.unit)
+    return make
+
+
+def _obj_append(w, c):
+    # objAppend(dest, src, i): src is copied behind dest and dest grows by its size
+    d, s_ = w.path_of(c["a"][0]), w.path_of(c["a"][1])
+    if d is None or s_ is None:
+        return
+    dk, sk = w.atoms.get(d + "->keep"), w.atoms.get(s_ + "->keep")
+    if dk is not None and sk is not None:
+        w.need = max(w.need, (w.pval(c["a"][0]) or 0) + dk + sk)
+        w.atoms[d + "->keep"] = dk + sk
+
+
+def _mk_field(keep_fn, deep_fn, byte_len_arg):
+    def make(w, c):
+        f = w.path_of(c["a"][0])
+        if f is None:
+            return
+        no = w.ival(c["a"][byte_len_arg])
+        w.atoms[f + "->no"] = no
+        w.atoms[f + "->n"] = (no + O_PER_W - 1) // O_PER_W
+        w.atoms[f + "->deep"] = w.ne.sizes.call(deep_fn, [no], w.f.unit)
+        w.atoms[f + "->keep"] = w.ne.sizes.call(keep_fn, [no], w.f.unit)
+    return make
+
+
+# creators of objects laid out inside a state / block (walker-aware; the scratch-stack CREATORS above stay as they are)
+OBJ_CREATORS = {
+    "gfpCreate": _mk_field("gfpCreate_keep", "gfpCreate_deep", 2),
+    "ecpCreateJ": _mk_curve("ecpCreateJ_deep", "ecpCreateJ_keep"),
+    "ec2CreateLD": _mk_curve("ec2CreateLD_deep", "ec2CreateLD_keep"),
+    "objAppend": _obj_append,
+}
+
+
 class NeedEval:
     def __init__(self, prog, sizes):
         self.prog = prog
@@ -253,6 +316,7 @@ class NeedEval:
         self.active = set()
         self.unmeasured = set()
         self.blob_sizes = {}
+        self.exports = {}      # need() key -> atoms of the objects the callee left in its state (by offset)
 
     def elem_size(self, tstr):
         t = (tstr or "").replace("const ", "").replace("volatile ", "").replace("register ", "").strip()
@@ -309,6 +373,9 @@ class NeedEval:
             r = w.run()
             if base == "blob":
                 self.blob_sizes[key] = w.blob_size
+            if base == "state":
+                self.exports[key] = ({k_: v for k_, v in w.atoms.items() if k_.startswith("@")},
+                                     {k_: v for k_, v in w.pfields.items() if k_.startswith("@")})
         finally:
             self.active.discard(key)
         self.memo[key] = r
@@ -321,7 +388,7 @@ class Walker:
         self.base = base
         self.blob_size = None      # base == "blob": (requested size | None, reason) of the first blobCreate
         self.prog = ne.prog
-        self.atoms = dict(atoms)
+        self.atoms = {k_: v for k_, v in atoms.items() if not k_.startswith("P@")}
         self.ints = {}       # var id -> int
         self.ptrs = {}       # var id -> offset from the stack base (bytes)
         self.paths = {}      # pointer var id -> access path it aliases (for atoms), e.g. local f = ec->f
@@ -330,6 +397,9 @@ class Walker:
         self.trace = []
         self.stack_id = None
         self.imax = {}       # induction variable id -> greatest value inside the loop being walked
+        # path of a pointer field in the state -> offset (from the base) of the object it was set to
+        self.pfields = {k_[1:]: v for k_, v in atoms.items() if k_.startswith("P@")}
+        self.fnvals = {}     # parameter id -> ("fn", name) for function-pointer parameters bound by the caller
         for p in f.params:
             if p["n"] == base and p.get("p") and base in ("stack", "state"):
                 self.stack_id = p["id"]
@@ -345,14 +415,42 @@ class Walker:
         e = strip(e)
         k = e.get("k")
         if k == "Ref":
+            if self.base != "stack" and e["id"] in self.ptrs and e.get("p") and self.ptrs[e["id"]] is not None:
+                return "@%d" % self.ptrs[e["id"]]      # an object in the state / block: named by its offset
             if e["id"] in self.paths:
                 return self.paths[e["id"]]
             if e["id"] in self.ptrs and e["id"] != self.stack_id and e.get("p"):
                 return e["n"]        # an object carved from the scratch stack: its fields are atoms under its name
             return None
+        if self.base != "stack" and k in ("Bin", "Cast", "Un"):
+            try:
+                pv = self.pval(e)
+            except Undecided:
+                pv = None
+            if pv is not None:
+                return "@%d" % pv
         if k == "Member":
+            if self.base != "stack" and e.get("p"):
+                if "[" in (e.get("t") or ""):
+                    try:
+                        o = self.member_off(e)
+                    except Undecided:
+                        o = None
+                    if o is not None:
+                        return "@%d" % o          # an array member: the object laid over it is named by its offset
+                else:
+                    bp = self.path_of(e["b"])
+                    if bp is not None:
+                        key = "%s%s%s" % (bp, "->" if e.get("arrow") else ".", e["f"])
+                        if key in self.pfields:
+                            return "@%d" % self.pfields[key]      # a pointer field that was set to an object in the state
             b = self.path_of(e["b"])
-            return None if b is None else "%s%s%s" % (b, "->" if e.get("arrow") else ".", e["f"])
+            if b is None:
+                return None
+            p = "%s%s%s" % (b, "->" if e.get("arrow") else ".", e["f"])
+            if self.base != "stack":
+                p = p.replace("->hdr.", "->")       # objKeep(obj) reads ((obj_hdr_t*)obj)->keep == obj->hdr.keep
+            return p
         return None
 
     def ival(self, e):
@@ -420,8 +518,24 @@ class Walker:
                 return SIZE_UPPER[cn]([self._maybe(a) for a in e["a"]])
             if cn and not e.get("indirect"):
                 g = self.prog.resolve(cn, self.f.unit)
-                if g is not None and g.body is not None and all(not p.get("p") for p in g.params):
-                    return self.ne.sizes.call(cn, [self.ival(a) for a in e["a"]], self.f.unit)
+                if g is not None and g.body is not None and (all(not p.get("p") for p in g.params) or g.ret.get("t") == "size_t"):
+                    args = []
+                    for p, a in zip(g.params, e["a"]):
+                        sa = strip(a)
+                        if sa.get("k") == "Ref" and sa.get("rk") == "func":
+                            args.append(("fn", sa["n"]))       # a _deep callback handed to a _keep function
+                        elif p.get("p"):
+                            if int_val(sa) == 0:
+                                args.append(0)
+                            elif sa.get("k") == "Ref" and sa["id"] in self.fnvals:
+                                args.append(self.fnvals[sa["id"]])
+                            else:
+                                raise Undecided("pointer argument of size function %s" % cn)
+                        else:
+                            args.append(self.ival(a))
+                    for a in e["a"][len(g.params):]:      # unnamed arguments of a variadic size function (utilMax)
+                        args.append(self.ival(a))
+                    return self.ne.sizes.call(cn, args, self.f.unit)
             raise Undecided("value of call %s unknown" % (cn or "?"))
         raise Undecided("expression %s" % k)
 
@@ -453,6 +567,12 @@ class Walker:
             return None
         if k == "Bin" and e["op"] == "=":
             return self.pval(e["y"])
+        if k == "Member" and e.get("p") and "[" not in (e.get("t") or "") and self.base != "stack":
+            bp = self.path_of(e["b"])
+            if bp is not None:
+                key = "%s%s%s" % (bp, "->" if e.get("arrow") else ".", e["f"])
+                if key in self.pfields:
+                    return self.pfields[key]
         if k == "Member" and e.get("p") and "[" in (e.get("t") or ""):
             # an array field of a structure that lies in the tracked memory: st->block, st->stack (flexible)
             o = self.member_off(e)
@@ -493,8 +613,14 @@ class Walker:
         return es
 
     # ---- statements
+    class _Leave(Exception):
+        """a return statement on a path whose guards were all decided: the rest of the body is not executed"""
+
     def run(self):
-        self.stmt(self.f.body)
+        try:
+            self.stmt(self.f.body)
+        except Walker._Leave:
+            pass
         return max(self.need, self.high)
 
     def stmt(self, s):
@@ -516,10 +642,16 @@ class Walker:
             self.expr(s["c"])
             if c is None:
                 snap = (dict(self.ints), dict(self.ptrs), dict(self.paths), dict(self.atoms))
-                self.stmt(s["then"])
+                try:
+                    self.stmt(s["then"])
+                except Walker._Leave:
+                    pass         # the guard is undecided: the code after the `if` may still run
                 a_ptrs = dict(self.ptrs)
                 self.ints, self.ptrs, self.paths, self.atoms = (dict(x) for x in snap)
-                self.stmt(s.get("else"))
+                try:
+                    self.stmt(s.get("else"))
+                except Walker._Leave:
+                    pass
                 for vid, off in a_ptrs.items():
                     if vid in self.ptrs and self.ptrs[vid] is not None and off is not None:
                         self.ptrs[vid] = max(self.ptrs[vid], off)
@@ -559,19 +691,27 @@ class Walker:
                         self.ints.pop(l["id"], None)
             if bound is not None:
                 self.imax[bound[0]] = bound[1]
-            self.stmt(s["body"])
+            try:
+                self.stmt(s["body"])
+            except Walker._Leave:
+                pass             # a return inside a loop body: whether it is reached is not decided
             if bound is not None:
                 self.imax.pop(bound[0], None)
             if k == "For" and s.get("inc"):
                 self.expr(s["inc"])
         elif k == "Switch":
             self.expr(s["c"])
-            self.stmt(s["body"])
+            try:
+                self.stmt(s["body"])
+            except Walker._Leave:
+                pass
         elif k in ("Case", "Default", "Label"):
             self.stmt(s.get("sub"))
         elif k == "Return":
             if s.get("e") is not None:
                 self.expr(s["e"])
+            if self.base != "stack":
+                raise Walker._Leave()
         elif k in ("Break", "Continue", "Goto", "Null", "Asm"):
             pass
         else:
@@ -581,6 +721,19 @@ class Walker:
         lhs = strip(lhs)
         self.expr(rhs)
         if lhs.get("k") == "Member":
+            if self.base != "stack" and lhs.get("p") and "[" not in (lhs.get("t") or ""):
+                bp = self.path_of(lhs["b"])
+                if bp is not None:
+                    key = "%s%s%s" % (bp, "->" if lhs.get("arrow") else ".", lhs["f"])
+                    try:
+                        pv = self.pval(rhs)
+                    except Undecided:
+                        pv = None
+                    if pv is not None:
+                        self.pfields[key] = pv
+                        self.high = max(self.high, pv)
+                    else:
+                        self.pfields.pop(key, None)
             lp = self.path_of(lhs)
             if lp is not None:
                 if lhs.get("p") and not lhs.get("pf"):
@@ -801,8 +954,10 @@ class Walker:
                 fn_ = strip(c["fn"])
                 if fn_.get("k") == "Un" and fn_["op"] == "*":
                     fn_ = strip(fn_["e"])
-                if fn_.get("k") == "Ref" and fn_.get("rk") == "param":
-                    return      # a caller-supplied callback (gen_i, read_i ..) gets a data buffer, like a libc routine
+                rr_ = ir.root_ref(fn_)
+                if (fn_.get("k") == "Ref" and fn_.get("rk") == "param") or \
+                        (fn_.get("k") == "Member" and rr_ is not None and rr_.get("rk") == "param"):
+                    return      # a caller-supplied callback (gen_i, read_i, cert->val ..) gets a data buffer, like a libc routine
                 if any(self.pval(a) is not None for a in c["a"]):
                     raise Undecided("call through `%s` receives scratch memory in %s and its target is unknown" % (
                         show(c["fn"])[:30], self.f.name))
@@ -876,6 +1031,29 @@ class Walker:
                             self.atoms["%s->%s" % (objp, an)] = val
                 except Undecided:
                     pass
+        if cn == "ecAddMulA" and len(c["a"]) >= 4:
+            # variadic: ecAddMulA(b, ec, stack, k, [a_i, d_i, m_i] * k); its body cannot be walked (va_arg), its demand
+            # is what ecAddMulA_deep(n, ec_d, ec_deep, k, m_1 .. m_k) declares (the body itself is frozen undecided in SD.a)
+            so = off_of(2)
+            ecp = self.path_of(c["a"][1])
+            if so is not None and ecp is not None:
+                try:
+                    k_ = self.ival(c["a"][3])
+                    ms = [self.ival(c["a"][4 + 3 * i + 2]) for i in range(k_)]
+                    dims = [self.atoms.get(ecp + "->f->n"), self.atoms.get(ecp + "->d"), self.atoms.get(ecp + "->deep")]
+                    if all(x is not None for x in dims):
+                        sub = self.ne.sizes.call("ecAddMulA_deep", dims + [k_] + ms, self.f.unit)
+                        self.need = max(self.need, so + sub)
+                        self.trace.append((c.get("l"), cn, so, sub, {}))
+                        return
+                except (Undecided, IndexError):
+                    pass
+                raise Undecided("dimensions of the variadic call ecAddMulA unknown in %s" % self.f.name)
+        if self.base != "stack" and cn in OBJ_CREATORS and c["a"]:
+            try:
+                OBJ_CREATORS[cn](self, c)
+            except Undecided:
+                pass
         cbase = "stack"
         if not sidx or off_of(sidx[0]) is None:
             # the callee's state lies in the tracked memory (beltMACStart(state, ..), beltHashStart(st->hash_state ..))
@@ -906,8 +1084,28 @@ class Walker:
                     scal[p["n"]] = self.ival(a)
                 except Undecided:
                     pass
+        if cbase == "state":
+            for k_, v in self.atoms.items():
+                m_ = re.match(r"@(-?\d+)(.*)$", k_)
+                if m_ and int(m_.group(1)) >= so:
+                    atoms["@%d%s" % (int(m_.group(1)) - so, m_.group(2))] = v
+            for k_, v in self.pfields.items():
+                m_ = re.match(r"@(-?\d+)(.*)$", k_)
+                if m_ and int(m_.group(1)) >= so and v >= so:
+                    atoms["P@%d%s" % (int(m_.group(1)) - so, m_.group(2))] = v - so
         sub = self.ne.need(g, scal, atoms, cbase)
         self.need = max(self.need, so + sub)
+        if cbase == "state":
+            key = (g.name, g.unit if g.static else None, tuple(sorted(scal.items())), tuple(sorted(atoms.items())), cbase)
+            ex_atoms, ex_pf = self.ne.exports.get(key) or ({}, {})
+            for k_, v in ex_atoms.items():
+                m_ = re.match(r"@(-?\d+)(.*)$", k_)
+                if m_:
+                    self.atoms["@%d%s" % (so + int(m_.group(1)), m_.group(2))] = v
+            for k_, v in ex_pf.items():
+                m_ = re.match(r"@(-?\d+)(.*)$", k_)
+                if m_:
+                    self.pfields["@%d%s" % (so + int(m_.group(1)), m_.group(2))] = so + v
         self.trace.append((c.get("l"), cn, so, sub, dict(scal)))
 
     def table_targets(self, fn):
